@@ -826,7 +826,13 @@ func loadTasks(ctx context.Context, pgp *pgxpool.Pool, c config.Root) ([]*Task, 
 		if !ig.Enabled {
 			continue
 		}
+		referenced := map[string]bool{}
 		for _, scRef := range ig.Sources {
+			if referenced[scRef.Name] {
+				// two tasks would drive the same (source, integration) pair
+				return nil, fmt.Errorf("integration %s references source %s more than once", ig.Name, scRef.Name)
+			}
+			referenced[scRef.Name] = true
 			sc, ok := scByName[scRef.Name]
 			if !ok {
 				return nil, fmt.Errorf("finding source config for %s", scRef.Name)
